@@ -73,8 +73,23 @@ pub fn random_lmcfg(rng: &mut Rng) -> LmCfg {
     }
 }
 
-/// run `f` on a helper thread; None if it does not finish within `secs`
+/// run `f` on a helper thread; None if it HANGS: it has not finished after `secs` seconds and has not
+/// evaluated a single basis function or derivative in the last `secs` seconds (a fit that keeps
+/// calling the model is slow – its evaluation budget is finite and checked by the driver – not hung;
+/// wall-clock time alone would make the verdict depend on the load of the machine), or it exceeds
+/// the hard cap of 40·`secs`
 pub fn with_deadline<R: Send + 'static>(secs: u64, f: impl FnOnce() -> R + Send + 'static) -> Option<Result<R, String>> {
+    with_deadline_beats(secs, None, f)
+}
+
+/// as `with_deadline`; `max_beats`: more kernel evaluations than this also count as a hang (a fit
+/// far beyond its evaluation budget is not going to end)
+pub fn with_deadline_beats<R: Send + 'static>(
+    secs: u64,
+    max_beats: Option<u64>,
+    f: impl FnOnce() -> R + Send + 'static,
+) -> Option<Result<R, String>> {
+    use std::sync::atomic::Ordering;
     let (tx, rx) = std::sync::mpsc::channel();
     std::thread::Builder::new()
         .stack_size(16 << 20)
@@ -83,7 +98,22 @@ pub fn with_deadline<R: Send + 'static>(secs: u64, f: impl FnOnce() -> R + Send 
             let _ = tx.send(r);
         })
         .expect("spawn");
-    rx.recv_timeout(std::time::Duration::from_secs(secs)).ok()
+    let cap = std::time::Instant::now() + std::time::Duration::from_secs(secs * 40);
+    let mut last = crate::common::HEARTBEAT.load(Ordering::Relaxed);
+    let first = last;
+    loop {
+        match rx.recv_timeout(std::time::Duration::from_secs(secs)) {
+            Ok(r) => return Some(r),
+            Err(std::sync::mpsc::RecvTimeoutError::Timeout) => {
+                let now = crate::common::HEARTBEAT.load(Ordering::Relaxed);
+                if now == last || std::time::Instant::now() > cap || max_beats.map_or(false, |b| now - first > b) {
+                    return None;
+                }
+                last = now;
+            }
+            Err(std::sync::mpsc::RecvTimeoutError::Disconnected) => return None,
+        }
+    }
 }
 
 pub fn enorm<T: Sc>(v: &DVector<T>) -> f64 {
@@ -189,7 +219,11 @@ pub fn emit_fit_case<T: Sc>(out: &mut Out, fc: &FitCase<T>, with_stats: bool) {
     out.line(&format!("buildcalls {}", build_calls));
     let lm = fc.cfg.build::<T>();
     let threads = fc.threads;
-    let r = with_deadline(20, move || {
+    // kernel evaluations of a whole fit: (patience·(P+1) + a few) parameter applications and as many
+    // Jacobians at most, M (+ M·P) kernel calls each; four times that is "not going to end"
+    let (mm, pp) = (c.recipe.m() as u64, c.recipe.p() as u64);
+    let beats = 4 * (fc.cfg.patience as u64 * (pp + 1) + 10) * (mm * (pp + 2) + 1);
+    let r = with_deadline_beats(20, Some(beats), move || {
         if threads > 0 {
             let pool = rayon::ThreadPoolBuilder::new().num_threads(threads).build().expect("pool");
             pool.install(|| prob.fit(lm))
